@@ -30,7 +30,7 @@ struct NodeArena {
     std::vector<Entry> all;
     std::string err_sig, err;
     static NodeArena& get() { static NodeArena a; return a; }
-    void reset() { for ( auto& e : all ) e.del( e.p ); all.clear(); err_sig.clear(); err.clear(); }
+    void reset() { cds_verif::regions_reset(); for ( auto& e : all ) e.del( e.p ); all.clear(); err_sig.clear(); err.clear(); }
     template <class N> N* make( Item const& i )
     {
         N* n = new N( i ); n->id = int( all.size());
@@ -85,7 +85,7 @@ struct IWrap {
     IWrap(): l() {}
 
     static node* make( Item const& i ) { return NodeArena::get().make<node>( i ); }
-    void remember( node* n ) { if ( n->val == n->key * 10L && !orig.count( n->key )) orig[n->key] = n; }
+    void remember( node* n ) { if ( n->val == n->key * 10L ) orig[n->key] = n; }     // the latest item inserted with the identity value
 
     bool insert( Item const& i ) { node* n = make( i ); bool ok = l.insert( *n ); n->linked = ok ? 1 : 0; if ( ok ) remember( n ); return ok; }
     template <class F> bool insert( Item const& i, F f ) { node* n = make( i ); bool ok = l.insert( *n, f ); n->linked = ok ? 1 : 0; if ( ok ) remember( n ); return ok; }
@@ -93,7 +93,9 @@ struct IWrap {
     template <class F> std::pair<bool, bool> update( Item const& i, F f, bool allow )
     { node* n = make( i ); auto r = do_update( l, *n, f, allow, 0 ); n->linked = ( Replaces ? r.first : r.second ) ? 1 : 0; return r; }
     template <class S, class F> static auto do_update( S& s, node& n, F f, bool allow, int ) -> decltype( s.update( n, f, allow )) { return s.update( n, f, allow ); }
-    template <class S, class F> static std::pair<bool, bool> do_update( S& s, node& n, F, bool allow, long ) { return s.update( n, allow ); }    // FeldmanHashSet: no functor
+    // FeldmanHashSet: update( val, bInsert ) has no functor; the harness's functor is told the outcome so that its accounting stays uniform
+    template <class S, class F> static std::pair<bool, bool> do_update( S& s, node& n, F f, bool allow, long )
+    { auto r = s.update( n, allow ); if ( r.first ) f( n, r.second ? (node*) nullptr : &n ); return r; }
     bool erase( int k ) { return l.erase( k ); }
     template <class F> bool erase( int k, F f ) { return l.erase( k, f ); }
     bool contains( int k ) { return l.contains( k ); }
